@@ -157,10 +157,10 @@ def attach_all(run, rt):
     import cnvlib.core as CORE
     from cnvlib.cnary import CopyNumArray
     from skgenome import GenomicArray
-    traced = [("call.do_call", CL.do_call), ("segmentation.do_segmentation", S.do_segmentation), ("fix.center_by_window", FX.center_by_window),
-              ("segmetrics.do_segmetrics", SM.do_segmetrics), ("segmetrics.make_ci_func", SM.make_ci_func), ("core.ensure_path", CORE.ensure_path),
-              ("CopyNumArray.by_gene", CopyNumArray.by_gene), ("GenomicArray.shuffle", GenomicArray.shuffle), ("bintest.do_bintest", BT.do_bintest),
-              ("reports.do_genemetrics", RP.do_genemetrics)]
+    traced = [("call.do_call", rt.opt(CL, "do_call")), ("segmentation.do_segmentation", rt.opt(S, "do_segmentation")), ("fix.center_by_window", rt.opt(FX, "center_by_window")),
+              ("segmetrics.do_segmetrics", rt.opt(SM, "do_segmetrics")), ("segmetrics.make_ci_func", rt.opt(SM, "make_ci_func")), ("core.ensure_path", rt.opt(CORE, "ensure_path")),
+              ("CopyNumArray.by_gene", rt.opt(CopyNumArray, "by_gene")), ("GenomicArray.shuffle", rt.opt(GenomicArray, "shuffle")), ("bintest.do_bintest", rt.opt(BT, "do_bintest")),
+              ("reports.do_genemetrics", rt.opt(RP, "do_genemetrics"))]
     for mod, attr, op in ((T, "do_target", "target"), (AT, "do_antitarget", "antitarget"), (FX, "do_fix", "fix"), (S, "do_segmentation", "segment"),
                           (SM, "do_segmetrics", "segmetrics"), (CL, "do_call", "call"), (RP, "do_genemetrics", "genemetrics"), (RP, "do_breaks", "breaks"),
                           (BT, "do_bintest", "bintest"), (MT, "do_metrics", "metrics")):
